@@ -229,11 +229,17 @@ RandomAccessIterator partition(RandomAccessIterator first,
   typedef partition_helper<RandomAccessIterator, Predicate> P;
   typename P::partition_helper_state s(first, last, pred);
   on_each(P(&s));
-  if (s.rfirst == first && s.rlast == last) { // perfect !
-    // abort();
-    return s.first;
-  }
-  return std::partition(s.rfirst, s.rlast, pred);
+  // All blocks are claimed now: s.first == s.last is where the blocks taken
+  // from the low end meet those taken from the high end. Finished low blocks
+  // hold only elements satisfying pred, finished high blocks only elements
+  // that do not; [rfirst, rlast) spans the unfinished blocks (it is still
+  // (last, first), i.e. empty, if there are none). The range to clean up must
+  // reach the meeting point, otherwise finished high blocks lying between it
+  // and the unfinished ones stay in front of elements that satisfy pred (and
+  // vice versa).
+  RandomAccessIterator b = std::min(s.rfirst, s.first);
+  RandomAccessIterator e = std::max(s.rlast, s.first);
+  return std::partition(b, e, pred);
 }
 
 struct pair_dist {
